@@ -104,6 +104,15 @@ def reformat(src):
 def package_overlay(root, how, package="syne_tune"):
     """{relative path: rewritten text} for every module of the package under root."""
     out = {}
+    if how == "kwargs":
+        srcs = {}
+        for d, _, fs in os.walk(os.path.join(root, package)):
+            for f in fs:
+                if f.endswith(".py"):
+                    p = os.path.join(d, f)
+                    with open(p, encoding="utf-8") as fh:
+                        srcs[os.path.relpath(p, root)] = fh.read()
+        return keywordise_package(srcs, package)
     for d, _, fs in os.walk(os.path.join(root, package)):
         for f in fs:
             if f.endswith(".py"):
@@ -349,3 +358,109 @@ def nest_else(src):
     t = _NestElse().visit(ast.parse(src))
     ast.fix_missing_locations(t)
     return ast.unparse(t) + "\n"
+
+
+# ------------------------------------------------------------------ positional arguments written as keyword arguments
+def _signature_index(trees):
+    """name -> set of parameter tuples, for plain module-level functions ("f", name) and undecorated methods ("m", name) of
+    the package; a name qualifies for rewriting only if all its definitions agree"""
+    idx = {}
+
+    def add(kind, fn, drop_self):
+        a = fn.args
+        ok = not a.posonlyargs and a.vararg is None and not fn.decorator_list
+        ps = tuple(x.arg for x in a.args)
+        if drop_self:
+            ok = ok and bool(ps) and ps[0] == "self"
+            ps = ps[1:]
+        idx.setdefault((kind, fn.name), set()).add(ps if ok else None)
+    for t in trees.values():
+        for n in t.body:
+            if isinstance(n, (ast.FunctionDef, ast.AsyncFunctionDef)):
+                add("f", n, False)
+            elif isinstance(n, ast.ClassDef):
+                for m in ast.walk(n):
+                    if isinstance(m, (ast.FunctionDef, ast.AsyncFunctionDef)):
+                        add("m", m, True)
+                    if isinstance(m, ast.Assign):          # an attribute of the same name may hold any callable
+                        for tg in m.targets:
+                            if isinstance(tg, ast.Attribute):
+                                idx.setdefault(("m", tg.attr), set()).add(None)
+        for n in ast.walk(t):                              # nested functions / classes shadow module-level names
+            if isinstance(n, (ast.FunctionDef, ast.AsyncFunctionDef, ast.ClassDef)) and n not in t.body:
+                if not any(n in getattr(c, "body", []) for c in t.body if isinstance(c, ast.ClassDef)):
+                    idx.setdefault(("f", n.name), set()).add(None)
+            if isinstance(n, ast.Attribute) and isinstance(n.ctx, ast.Store):
+                idx.setdefault(("m", n.attr), set()).add(None)
+    return {k: next(iter(v)) for k, v in idx.items() if len(v) == 1 and None not in v}
+
+
+class _Keywordise(ast.NodeTransformer):
+    def __init__(self, idx, module_funcs):
+        self.idx = idx
+        self.module_funcs = module_funcs     # names bound at module level to package functions (defined or imported from the package)
+        self.shadow = [set()]
+
+    def visit_FunctionDef(self, fn):
+        a = fn.args
+        names = {x.arg for x in a.posonlyargs + a.args + a.kwonlyargs}
+        for x in (a.vararg, a.kwarg):
+            if x:
+                names.add(x.arg)
+        for n in ast.walk(fn):
+            if isinstance(n, ast.Name) and isinstance(n.ctx, ast.Store):
+                names.add(n.id)
+        self.shadow.append(names)
+        self.generic_visit(fn)
+        self.shadow.pop()
+        return fn
+    visit_AsyncFunctionDef = visit_FunctionDef
+
+    def visit_Lambda(self, n):
+        self.shadow.append({x.arg for x in n.args.args})
+        self.generic_visit(n)
+        self.shadow.pop()
+        return n
+
+    def visit_Call(self, c):
+        self.generic_visit(c)
+        if not c.args or any(isinstance(x, ast.Starred) for x in c.args) or any(k.arg is None for k in c.keywords):
+            return c
+        ps = None
+        if isinstance(c.func, ast.Attribute) and isinstance(c.func.value, ast.Name) and c.func.value.id == "self":
+            ps = self.idx.get(("m", c.func.attr))
+        elif isinstance(c.func, ast.Name) and c.func.id in self.module_funcs and not any(c.func.id in s for s in self.shadow):
+            ps = self.idx.get(("f", c.func.id))
+        if ps is None or len(c.args) > len(ps) or any(k.arg in ps[:len(c.args)] for k in c.keywords):
+            return c
+        c.keywords = [ast.keyword(arg=p, value=v) for p, v in zip(ps, c.args)] + c.keywords
+        c.args = []
+        return c
+
+
+def keywordise_package(sources, package="syne_tune"):
+    """{path: text} -> {path: text} with the positional arguments of `self.m(...)` and of calls of the package's own
+    module-level functions written as keyword arguments (only where every definition of that name in the package has
+    the same parameter list, no *args, no positional-only parameters, no decorator)"""
+    trees = {p: ast.parse(s) for p, s in sources.items()}
+    idx = _signature_index(trees)
+    out = {}
+    for p, t in trees.items():
+        mf = {n.name for n in t.body if isinstance(n, (ast.FunctionDef, ast.AsyncFunctionDef))}
+        rebound = set()
+        for n in t.body:
+            if isinstance(n, ast.ImportFrom) and (n.level > 0 or (n.module or "").split(".")[0] == package):
+                for a in n.names:
+                    if a.asname is None or a.asname == a.name:
+                        mf.add(a.name)
+            elif isinstance(n, (ast.Import, ast.ImportFrom)):
+                for a in n.names:
+                    rebound.add((a.asname or a.name).split(".")[0])
+            elif isinstance(n, (ast.Assign, ast.AnnAssign, ast.AugAssign)):
+                for x in ast.walk(n):
+                    if isinstance(x, ast.Name) and isinstance(x.ctx, ast.Store):
+                        rebound.add(x.id)
+        t2 = _Keywordise(idx, mf - rebound).visit(t)
+        ast.fix_missing_locations(t2)
+        out[p] = ast.unparse(t2) + "\n"
+    return out
